@@ -164,11 +164,30 @@ def build_cases(tier, wd):
             xml = add_ids(f"<math>{body}</math>", idmode, rng)
             cases.append({"mathml": xml, "origin": "model", "idmode": idmode, "spicy": spicy,
                           "locale": LOCALES[gi % len(LOCALES)] if spicy else None})
+    # escaping matrix (C02 "special characters in text and attributes are escaped so the string parses back"): every
+    # sequence of <= 3 character classes {ASCII, 2-, 3-, 4-byte character, each XML special} as token text and as attribute value
+    import itertools
+    alphabet = ["a", "é", "α", "∑", "𝐀", "&amp;", "&lt;", "&gt;", "'", "&quot;"]
+    seqs = [p for n in (1, 2, 3) for p in itertools.product(alphabet, repeat=n) if any(len(x) > 1 or x == "'" for x in p)]
+    if tier == "quick":
+        seqs = rng.sample(seqs, 260)
+    for p_ in seqs:
+        txt = "".join(p_)
+        attr = txt.replace("'", "&apos;")
+        hosts = [f"<math><mtext>{txt}</mtext></math>", f"<math><mi>x</mi><mo>+</mo><ms>{txt}</ms></math>",
+                 f"<math><mrow intent='{attr}'><mi>x</mi><mo>+</mo><mi>y</mi></mrow></math>",
+                 f"<math><semantics><mi>x</mi><annotation encoding='application/x-tex'>{txt}</annotation></semantics></math>"]
+        for h in (hosts if tier == "thorough" else rng.sample(hosts, 2)):
+            cases.append({"mathml": h, "origin": "escape-matrix", "idmode": "none", "spicy": False, "locale": None})
     corpus = mml.corpus()
     if tier == "quick":
         corpus = rng.sample(corpus, 700)
     for ci, c in enumerate(corpus):
         cases.append({"mathml": c["mathml"], "origin": "suite:" + c["src"], "idmode": "asis", "spicy": False, "locale": None})
+        # expressions that already carry MathCAT's internal bookkeeping attributes (canonical output used as test input)
+        # are replayed as they are but not mutated: forged data-changed='added' marks are not an author's MathML
+        if "data-changed" in c["mathml"] or "data-id-added" in c["mathml"]:
+            continue
         for m in mutants(c["mathml"], rng, limit=2 if tier == "quick" else 8):
             cases.append({"mathml": m, "origin": "suite-mutant:" + c["src"], "idmode": "asis", "spicy": False, "locale": None})
     return cases, {"abstract_trees": len(abstract), "deep_trees": len(deep), "tlc_states": r["distinct"], "tlc_transitions": r["states"]}
